@@ -12,6 +12,7 @@ import bisect
 import itertools
 
 from vk.boot import HarnessBroken
+from vk import tree as vtree
 from vk import work, probe
 from vk.gen import jsgen
 from vk.ref import refjs
@@ -28,7 +29,7 @@ RULE = ('programs: random Annex A derivations with explicit semicolons (one alte
 ASSUMPTIONS = ['refjs implements 7.9.1 literally (three rules, restricted productions, the two overriding conditions) '
                'and is the oracle; ES2015 do-while leniency is not part of the dialect']
 BUDGET_S = {'quick': 75, 'thorough': 900}
-REQUIRED_HITS = ['parse', 'create_semi_token', 'asi_events_compared', 'multiline_token']
+REQUIRED_HITS = ['parse', 'create_semi_token', 'asi_events_compared', 'multiline_token', 'comment_capturing_parser']
 FLOOR = {'quick': 3000, 'thorough': 40000}
 
 SEPARATORS = [
@@ -217,6 +218,25 @@ def check(ctx, log, text, key, nontrivial, origin, sample=None):
     ctx.count(origin + ':' + ('accept' if s.tree is not None else 'reject') + '/' +
               ('accept' if s.ref is not None else 'reject'))
     v = judge(s, events)
+    if not v and ('/*' in text or '//' in text):
+        # where a semicolon goes does not depend on whether the parser keeps the comments it passes: the layout
+        # "line break inside a comment" judged once more with a comment-capturing parser
+        ctx.hit('comment_capturing_parser')
+        try:
+            t2, e2 = work.run_impl(text, True)
+            c2 = vtree.canon_impl(t2) if t2 is not None else None
+        except RecursionError:
+            c2 = s.ci
+        except Exception as e:
+            c2 = 'raised %s' % type(e).__name__
+        if c2 != s.ci:
+            v = ('C04:insertion_depends_on_comment_capture',
+                 'parse(text) %s; with_comments=True %s' % (
+                     'accepts' if s.tree is not None else 'rejects',
+                     ('gives another tree: %s' % first_diff(s.ci, c2)) if (c2 is not None and s.ci is not None and not isinstance(c2, str))
+                     else ('rejects' if c2 is None else 'accepts' if not isinstance(c2, str) else c2)))
+            ctx.violation(v[0], {'text': text}, '%s\ninput: %r' % (v[1], text))
+            return
     if v:
         mech, detail = v
 
